@@ -546,7 +546,11 @@ def check(pid, tier, seed, t0, st, replay):
                             res.violations.append(replay_payload(pid, b_['case'], b_['what'], b_['detail']))
                         else:
                             res.violations.append(dict(property=pid, what=b_['what'], detail=b_.get('detail')))
-                if pid in ('C04', 'C09'):
+                if pid in ('C04', 'C09') and res.violations:
+                    # a violation is established already (e.g. the builder stalls on an input): the disk stage would run
+                    # into the same thing under every environment, one watchdog period at a time
+                    res.notes.append('disk stage skipped: a violation was found on the in-memory inputs already')
+                elif pid in ('C04', 'C09'):
                     # the same inputs through the real read path (readFile -> parser -> builder -> merge)
                     dstats, dbad = scan.disk_locations(cases, work, B + '/harness')
                     stats.update({'disk_' + k: v for k, v in dstats.items()})
